@@ -53,8 +53,22 @@ def _meta_template():
     return common.REPO / "src" / "tests" / "fixtures" / "sample3B_g0_t0.imec1.ap.meta"
 
 
-def write_meta(dest, ns, ncv):
-    """3B (NP1) meta with `ncv` voltage channels (first ncv sites of the fixture) + 1 sync."""
+def gains_of(scn):
+    """AP gain of each voltage channel (imroTbl).  None: the fixture's uniform 500."""
+    ncv, g = scn["ncv"], scn.get("gains")
+    h = ncv // 2
+    if g == "halves":          # bank 0 low gain, bank 1 high gain (channel 0 on the LOW gain)
+        return np.r_[np.full(h, 250), np.full(ncv - h, 1000)]
+    if g == "halves_rev":      # channel 0 on the HIGH gain
+        return np.r_[np.full(h, 1000), np.full(ncv - h, 250)]
+    if g == "mixed":           # three gains interleaved in blocks of 2, channel 0 on 500
+        return np.array([(500, 500, 1000, 1000, 250, 1500)[i % 6] for i in range(ncv)])
+    return np.full(ncv, 500)
+
+
+def write_meta(dest, ns, ncv, gains=None):
+    """3B (NP1) meta with `ncv` voltage channels (first ncv sites of the fixture) + 1 sync;
+    `gains`: AP gain per channel written into the imroTbl."""
     nc = ncv + 1
     out = []
     for line in open(_meta_template()).read().splitlines():
@@ -81,6 +95,14 @@ def write_meta(dest, ns, ncv):
             elif k == "~snsChanMap":
                 ent = re.findall(r"\([^)]*\)", line.split("=", 1)[1])
                 line = "~snsChanMap=(%d,0,1)" % ncv + "".join(ent[1:1 + ncv]) + ent[-1]
+        if k == "~imroTbl" and gains is not None:
+            head, ent = line.split("=", 1)[1].split(")", 1)[0] + ")", re.findall(r"\(([^)]*)\)", line.split("=", 1)[1])[1:]
+            new = []
+            for e, g in zip(ent, gains):
+                f = e.split()
+                f[3] = str(int(g))           # (channel bank ref APgain LFgain APfilter)
+                new.append("(" + " ".join(f) + ")")
+            line = "~imroTbl=" + head + "".join(new)
         out.append(line)
     Path(dest).write_text("\n".join(out) + "\n")
 
@@ -111,6 +133,21 @@ def make_data(scn):
     nsp = max(4, ns // 400)
     d[rng.integers(0, ns, nsp), rng.integers(0, ncv, nsp)] += rng.choice([-1, 1], nsp) * rng.integers(120, 300, nsp)
     d = np.clip(np.round(d), -500, 500)
+    if scn.get("slow"):
+        # slow common artefacts of 0.66 mV (20-sample ramps: far below the slew criterion): only the
+        # channels whose range 0.6 V / gain is below 0.66 mV (gain >= 1000) reach their rail
+        gains = gains_of(scn)
+        rule = py_rule(ns, scn["nbatch"])
+        centres = [rule[len(rule) // 2][0] + T + 40, max(60, rule[-1][0] + T // 2), ns // 3]
+        w = np.zeros(ns)
+        for cpos in centres:
+            a = int(min(max(cpos, 30), ns - 160))
+            b = a + int(rng.integers(60, 130))
+            w[a:b] = 1
+            w[a - 20:a] = np.maximum(w[a - 20:a], np.linspace(0, 1, 20, endpoint=False))
+            w[b:b + 20] = np.maximum(w[b:b + 20], np.linspace(1, 0, 20, endpoint=False))
+        sign = rng.choice([-1, 1])
+        d = np.clip(np.round(d + sign * w[:, np.newaxis] * (0.66e-3 * gains * 512 / 0.6)[np.newaxis, :]), -511, 511)
     sat = []
     if scn.get("sat"):
         rule = py_rule(ns, scn["nbatch"])
@@ -137,7 +174,7 @@ def make_recording(folder, scn):
     data, sat = make_data(scn)
     binf = folder / "rec.ap.bin"
     data.tofile(binf)
-    write_meta(folder / "rec.ap.meta", scn["ns"], scn["ncv"])
+    write_meta(folder / "rec.ap.meta", scn["ns"], scn["ncv"], gains_of(scn) if scn.get("gains") else None)
     if scn.get("src") == "cbin":                # mtscomp-compressed source (.cbin + .ch), original removed
         import spikeglx
         with contextlib.redirect_stderr(io.StringIO()), contextlib.redirect_stdout(io.StringIO()):
@@ -316,12 +353,26 @@ class Tap:
         voltage.open = tap_open
         self._orig_np = voltage.np
         voltage.np = _NpShim(self)
+        self._orig_sat = voltage.saturation
+
+        def sat_wrap(*a, **kw):
+            sess = tap._cur.get(threading.get_ident())
+            if sess is not None:
+                mv = kw.get("max_voltage", a[1] if len(a) > 1 else None)
+                fs = kw.get("fs", a[3] if len(a) > 3 else 30_000)
+                data = kw.get("data", a[0] if a else None)
+                sess["ops"].append(("satcall", np.atleast_1d(np.asarray(mv, dtype=np.float64)).copy(), int(np.ndim(mv)),
+                                    float(fs), tuple(np.shape(data))))
+            return tap._orig_sat(*a, **kw)
+
+        voltage.saturation = sat_wrap
         return self
 
     def __exit__(self, *a):
         self._spikeglx.Reader.__init__ = self._orig_init
         self._spikeglx.Reader.__getitem__ = self._orig_getitem
         self._voltage.np = self._orig_np
+        self._voltage.saturation = self._orig_sat
         if self._had_open:
             self._voltage.open = self._orig_open
         else:
@@ -351,6 +402,11 @@ def canon_sessions(tap, ncv):
                     batches.append(cur)
                 elif cur is None or (o[1], o[2]) != (cur["first"], cur["last"]):
                     bad.append("sync read %r outside the current batch" % (o,))
+            elif o[0] == "satcall":
+                if cur is not None and "satcall" not in cur:
+                    cur["satcall"] = o[1:]
+                else:
+                    bad.append("saturation() called outside a batch / twice in a batch")
             elif o[0] == "sat":
                 if cur is None or "sat" in cur:
                     bad.append("saturation assignment outside a batch / twice in a batch")
@@ -459,15 +515,20 @@ def reference(binf, scn, nbatch=None, t0=0.0):
     DEPHAS = np.exp(1j * np.angle(fft_object(dephas)) * h["sample_shift"][:, np.newaxis])
     wrot = make_wrot(scn)
     dtype = getattr(np, scn.get("dtype", "int16"))
+    # NP1: 10-bit ADC over +/-0.6 V divided by the channel's AP gain (independent of Reader.range_volts)
+    max_voltage = (0.6 / gains_of(scn)).astype(np.float32)
+    if not np.allclose(sr.range_volts[:ncv], max_voltage, rtol=1e-5, atol=0):
+        raise RuntimeError("Reader.range_volts %r differs from 0.6 V / AP gain %r"
+                           % (sr.range_volts[:ncv][:8], max_voltage[:8]))
     out = []
     with warnings.catch_warnings():
         warnings.simplefilter("ignore")
         for fs, ls, lo, hi in py_rule(sr.ns, nb):
             chunk = sr[fs:ls, :ncv].T
-            sat, mute = voltage.saturation(data=chunk, max_voltage=sr.range_volts[:ncv], fs=sr.fs)
+            sat, mute = voltage.saturation(data=chunk, max_voltage=max_voltage, fs=FS)
             chunk[:, :T] *= taper[:T]
             chunk[:, -T:] *= taper[T:]
-            sat_tap, _ = voltage.saturation(data=chunk, max_voltage=sr.range_volts[:ncv], fs=sr.fs)
+            sat_tap, _ = voltage.saturation(data=chunk, max_voltage=max_voltage, fs=FS)
             chunk = scipy.signal.sosfiltfilt(sos, chunk)
             if ls == sr.ns:
                 chunk = fourier.fshift(chunk, s=h["sample_shift"])
@@ -486,7 +547,7 @@ def reference(binf, scn, nbatch=None, t0=0.0):
             if wrot is not None:
                 full[:, :ncv] = np.dot(full[:, :ncv], wrot)
             out.append({"first": fs, "last": ls, "lo": lo, "hi": hi, "full": full.astype(dtype),
-                        "sat": np.asarray(sat), "sat_tap": np.asarray(sat_tap), "rms": rms, "t": tstamp})
+                        "max_voltage": max_voltage, "sat": np.asarray(sat), "sat_tap": np.asarray(sat_tap), "rms": rms, "t": tstamp})
     sr.close()
     return out
 
@@ -533,6 +594,24 @@ def sat_stage(b, r):
     return 1 if np.array_equal(sat[3], r["sat_tap"]) else -1
 
 
+def sat_args(b, r):
+    """How saturation() was called for a batch: 0 = one threshold per voltage channel equal to that
+    channel's range, reader's sampling rate, the raw chunk's shape; 1 = not one value per channel
+    (scalar / wrong length); 2 = per channel but wrong values; 3 = wrong fs / data shape; -1 = no call."""
+    c = b.get("satcall")
+    if c is None or r is None:
+        return -1
+    mv, ndim, fs, shape = c
+    ncv = r["max_voltage"].size
+    if ndim != 1 or mv.shape != (ncv,):
+        return 1
+    if not np.allclose(mv, r["max_voltage"], rtol=1e-5, atol=0):
+        return 2
+    if fs != FS or shape != (ncv, b["last"] - b["first"]):
+        return 3
+    return 0
+
+
 def pick_probes(ref, ns):
     """samples at which the saturation bookkeeping is reported: around the read ranges' ends."""
     ks = sorted(set(list(range(min(3, len(ref)))) + list(range(max(0, len(ref) - 3), len(ref)))
@@ -562,7 +641,7 @@ def enc_impl(obs, ref, out_rows, offset, rowbytes, ncv, P, probes=()):
             if r is not None and cnt >= 0 and row0 >= 0:
                 lo = locate(r["full"][:, :out_rows.shape[1]], out_rows[row0:row0 + cnt], row0 - b["first"], ncv)
             evs.append([b["first"], b["last"], pos, lo, cnt, b.get("rms", (-1, 0))[0], b.get("time", (-1, 0))[0],
-                        sat_stage(b, r)])
+                        sat_stage(b, r), sat_args(b, r)])
             batches[b["first"]] = [b["first"], b["last"], row0, row0 + cnt, lo]
         pads = []
         if w["pad"] is not None:
@@ -755,6 +834,10 @@ def check_run(ctx, scn, obs, data, ref, ref_prev, tags_base, cases, stats, nbatc
                 fail("qc: saturation file differs from the last-writer replay of the observed assignments at %d samples"
                      % int((last != sat).sum()))
             refby = {r["first"]: r for r in ref}
+            nbadargs = sum(1 for w in obs["workers"] for b in w["batches"] if sat_args(b, refby.get(b["first"])) != 0)
+            if nbadargs:
+                fail("qc: %d saturation() calls were not given one threshold per voltage channel (that channel's "
+                     "range), the reader's sampling rate and the raw chunk" % nbadargs)
             nraw = sum(1 for w in obs["workers"] for b in w["batches"] if sat_stage(b, refby.get(b["first"])) == 0)
             nall = sum(len(w["batches"]) for w in obs["workers"])
             if nraw != nall:
@@ -872,7 +955,7 @@ def model_worker_status(out):
         st.append(out[i])
         if out[i] == 0:
             nev = out[i + 1]
-            i += 2 + 8 * nev
+            i += 2 + 9 * nev
             i += 1 + 4 * out[i]
         elif out[i] == 1:
             i += 2
